@@ -64,7 +64,7 @@ func (g *sg) literal() string {
 	case 1:
 		return g.oneOf("float", "1.5", "0.25", ".5", "1e10", "1.5e-3", "2.")
 	case 2:
-		return g.oneOf("str", "'x'", "''", "'it''s'", `'a\'b'`, `'a\\b'`, `'a"b'`, "'a\nb'", `'\n\t\0'`, "'%_'", "'é漢'", "'`'", "'select'", `'\Z'`, `'\%'`)
+		return g.oneOf("str", "'x'", "''", "'it''s'", `'a\'b'`, `'a\\b'`, `'a"b'`, "'a\nb'", `'\n\t\0'`, "'%_'", "'é漢'", "'`'", "'select'", `'\Z'`, `'\%'`, "'a\tb'", "'a\rb'")
 	case 3:
 		return g.kw("null")
 	case 4:
@@ -72,7 +72,7 @@ func (g *sg) literal() string {
 	case 5:
 		return g.oneOf("hex", "0x1F", "x'1f'", "X'AB'", "b'0101'", "0xabc")
 	case 6:
-		return g.oneOf("arg", ":arg", ":a1", "?")
+		return g.oneOf("arg", "?", "?", "?", ":a1")
 	default:
 		return strconv.Itoa(g.pick(20, "small"))
 	}
@@ -415,7 +415,7 @@ func (g *sg) selectStmt(depth int, allowTail bool) string {
 			s += " " + g.kw("order by") + " " + strings.Join(os, ", ")
 		}
 		if g.chance(1, 4, "limit") {
-			s += " " + g.kw("limit") + " " + g.oneOf("limit", "1", "10", "3, 4", "5 "+g.kw("offset")+" 2", ":n")
+			s += " " + g.kw("limit") + " " + g.oneOf("limit", "1", "10", "3, 4", "5 "+g.kw("offset")+" 2", "?")
 		}
 	}
 	return s
